@@ -21,6 +21,10 @@ for name in sorted(os.listdir('/verif/seeded')):
         lines = r.stdout.splitlines()
         rules = sorted({l.split('rule=')[1].split(' at ')[0] for l in lines if l.strip().startswith('rule=')})
         verdict = 'DETECTED' if r.returncode == 1 else ('ANALYSIS-ERROR' if r.returncode == 2 else 'missed')
+        if hist.get(name, {}).get('obsolete'):
+            # a later fix: commit in /repo made this change harmless: its demo must pass with the patch applied, and the check must be silent
+            dr = sh('PYTHONPATH=/repo /venv/bin/python %s/demo.py' % d)
+            verdict = ('OBSOLETE-SILENT' if r.returncode == 0 else 'OBSOLETE-BUT-ALARM') if dr.returncode == 0 else verdict
     finally:
         sh('git -C /repo checkout -- .')
     rows.append((name, prop, verdict, ', '.join(rules), meta.get('summary', '')[:110]))
@@ -39,6 +43,9 @@ with open('/verif/seeded/RESULTS.md', 'w') as f:
         if rnd > 1: f.write('\nRound %d: %d seeds, %d detected at first try, %d missed at first try.' % (rnd, len(ks), sum(1 for k in ks if hist[k]['first_verdict'] == 'DETECTED'), sum(1 for k in ks if hist[k]['first_verdict'] == 'MISSED')))
     f.write('\n')
     det = sum(1 for r in rows if r[2] == 'DETECTED')
-    f.write('\n%d of %d detected.\n' % (det, len(rows)))
+    obs = [r[0] for r in rows if r[2].startswith('OBSOLETE')]
+    f.write('\n%d of %d detected.\n' % (det, len(rows) - len(obs)))
+    for o in obs: f.write('\n%s is no longer a breaking change (%s): its demo passes with the patch applied to the current tree, and the check is %s.\n' % (
+        o, hist[o]['obsolete'], 'silent, as it must be' if [r for r in rows if r[0] == o][0][2] == 'OBSOLETE-SILENT' else 'NOT silent (false alarm)'))
 sh('tools/runall.sh', cwd='/verif')   # evidence files must describe the clean tree again
-print('%d of %d detected' % (sum(1 for r in rows if r[2] == 'DETECTED'), len(rows)))
+print('%d of %d detected' % (sum(1 for r in rows if r[2] == 'DETECTED'), len([r for r in rows if not r[2].startswith('OBSOLETE')])))
